@@ -29,6 +29,9 @@ func scenarioExprs(thorough bool) []string { return scenarioExprsW(thorough, 4) 
 // withConstants adds the constant-operand expressions (C13 only).
 var withConstants = false
 
+// curatedCount: length of the hand-written head of the scenario universe (set by scenarioExprsW).
+var curatedCount int
+
 var constantOperands = []string{"`[]`", "`{}`", "`\"\"`", "''", "`0`", "`false`", "`null`", "`[0]`", "'a'", "`true`", "`1`"}
 
 // scenarioExprsW: wf is the weight bound of the generated function calls.
@@ -55,11 +58,15 @@ func scenarioExprsW(thorough bool, wf int) []string {
 		"sum(a)", "max(b)", "sort(b)", "[*].sum(@)", "a[*].to_array(k) | [*][0]", "join(',', b)",
 		// a step larger than some documents' arrays and smaller than others'; by-functions whose keys are
 		// inconsistent in one document and fine in the next (state left behind by the failing call)
-		"[::5]", "a[::5]", "[::-5]", "a[::-5]", "[::3]", "a[1::4]", "sort_by(@, &k)", "max_by(@, &k)", "min_by(a, &k)", "sort_by(a, &t)", "max_by(a, &t)", "sort(b)", "max(b)",
+		"[::5]", "a[::5]", "[::-5]", "a[::-5]", "[::3]", "a[1::4]", "[:5]", "a[1:6]", "[-6:]", "[5:]", "a[:-5]", "[2:11]", "a[-11:-1]", "sort_by(@, &k)", "max_by(@, &k)", "min_by(a, &k)", "sort_by(a, &t)", "max_by(a, &t)", "sort(b)", "max(b)",
+		// expressions Compile rejects (the one-shot Search must reject them on every document as well): letters
+		// and digits outside ASCII that a Unicode-aware shortcut would take for an identifier, and plain syntax errors
+		"größe", "名前", "a١", "é", "ǅ", "a b", "a.", "[0", "1a", "a=b", "'unclosed",
 		"sort_by(a, &k) | sort_by(@, &t)", "sort_by(sort_by(a, &k), &t)", "a[*].sort(@)", "[sort_by(a, &k), a]", "sort_by(a, &k)[0].k",
 	} {
 		add(s)
 	}
+	curatedCount = len(out)
 	// constants on either side of the logical operators and comparators (a Compile-time rewrite must agree with
 	// what the one-shot Search evaluates)
 	lits := []string{}
@@ -108,7 +115,7 @@ var historyDocs = univ.Js(
 	`{"a":{"b":{"c":1}},"b":2}`, `null`, `{"a":"x","b":"y"}`, `[{"k":1},{"k":"a"}]`,
 	`{"c":1}`, `{"d":[2],"a":[1,2],"b":[1,3]}`,
 	`{"a":[9,8,7,6,5,4,3,2,1,0],"b":["j","i","h","g","f","e","d","c","b","a"]}`,
-	`{"a":[{"k":1,"t":0},{"k":"x","t":1},{"k":2,"t":"y"}],"b":[1,"a"]}`, `[9,8,7,6,5,4,3,2,1,0,11,12]`,
+	`{"a":[{"k":1,"t":0},{"k":"x","t":1},{"k":2,"t":"y"}],"b":[1,"a"]}`, `[9,8,7,6,5,4,3,2,1,0,11,12]`, `{"größe":1,"名前":2,"a١":3,"é":4,"ǅ":5,"a":6}`,
 )
 
 func resKey(res interface{}, err error, pn *impl.Panic) string {
